@@ -429,3 +429,22 @@ Theorem C09_imgiter_stamp_kind_at_creation_refuted :
     TI.model.ImgIter.trace fmt stamp 2 false (TI.model.ImgIter.init Z (-1) 0 (g0, e0)) (TI.model.ImgIterEnv.lower2 g0 e0 ops).
 Proof. exact TI.proofs.ImgIterRszProofs.stamp_kind_at_creation_refuted. Qed.
 Print Assumptions C09_imgiter_stamp_kind_at_creation_refuted.
+
+(** KNOWN FINDING (round 9).  The three theorems above take the formatting of a frame to be a
+    function of (frame number, rendered size).  For graphics-based styles the render is made
+    for rendered size x cell size pixels: modelled faithfully ([fmt_pix]: the frame records the
+    pixel size; the code's stamp hash(rendered size)), a cell-size change that leaves the
+    rendered size, the terminal size and the cell ratio alone makes the caching iterator yield
+    stale frames.  The correspondence counts such pairs instead of reporting them. *)
+Theorem C09_imgiter_cell_size_only_change_refuted :
+  exists (g0 : TI.model.ImgIterRsz.setting) (e' : TI.model.ImgIterRsz.env3)
+         (ops : list (TI.model.ImgIterEnv.eop TI.model.ImgIterRsz.setting TI.model.ImgIterRsz.env3)),
+    let e0 := TI.proofs.ImgIterRszProofs.e_a in
+    let stamp := TI.model.ImgIterRsz.stamp_rendered (@pair Z Z) TI.proofs.ImgIterRszProofs.ex_dyn TI.proofs.ImgIterRszProofs.ex_hash in
+    TI.proofs.ImgIterRszProofs.ex_rs g0 e' = TI.proofs.ImgIterRszProofs.ex_rs g0 e0 /\
+    TI.model.ImgIterRsz.term_size e' = TI.model.ImgIterRsz.term_size e0 /\
+    TI.model.ImgIterRsz.cell_ratio e' = TI.model.ImgIterRsz.cell_ratio e0 /\
+    TI.model.ImgIter.trace TI.proofs.ImgIterRszProofs.fmt_pix stamp 2 true (TI.model.ImgIter.init Z (-1) 0 (g0, e0)) (TI.model.ImgIterEnv.lower2 g0 e0 ops) <>
+    TI.model.ImgIter.trace TI.proofs.ImgIterRszProofs.fmt_pix stamp 2 false (TI.model.ImgIter.init Z (-1) 0 (g0, e0)) (TI.model.ImgIterEnv.lower2 g0 e0 ops).
+Proof. exact TI.proofs.ImgIterRszProofs.cell_size_only_change_refuted. Qed.
+Print Assumptions C09_imgiter_cell_size_only_change_refuted.
